@@ -381,6 +381,11 @@ def main():
     if len(args) < 1:
         print(__doc__)
         sys.exit(2)
+    for f in flags:
+        if f.startswith('--replay='):
+            sys.exit(replay_file(f.split('=', 1)[1]))
+    if '--replay' in flags and args:
+        sys.exit(replay_file(args[-1]))
     pid = args[0]
     tier = args[1] if len(args) > 1 else os.environ.get('VERIF_TIER', 'quick')
     only = None
@@ -652,6 +657,40 @@ def selftest(pid, specdir, scratch):
     return dict(mutants=len([r for r in res if r['kind'] == 'mutant']), mutants_caught=len([r for r in res if r['kind'] == 'mutant' and r['ok']]),
                 equivalents=len([r for r in res if r['kind'] == 'equivalent']), equivalents_quiet=len([r for r in res if r['kind'] == 'equivalent' and r['ok']]),
                 not_ok=[r for r in bad])
+
+
+def replay_file(path):
+    """./check --replay <file>: re-runs the recorded counterexample (the verifier's nondet values, as a tape) natively against the CURRENT
+    /repo sources.  exit 1 = the failing obligation is reproduced, 0 = it is not (e.g. the code was repaired), 2 = nothing to replay."""
+    rec = json.load(open(path))
+    print('replay of %s: obligation "%s"' % (rec.get('property'), rec.get('obligation')))
+    if not rec.get('tape'):
+        print('no input recorded for this obligation (%s); verifier commands: %s' % (rec.get('note', 'no-failing-input-found'), rec.get('verifier_cmds')))
+        return 2
+    pid = rec['property']
+    specdir, mod = load_spec(pid)
+    stack = getattr(mod, 'STACK', DEFAULT_STACK)
+    g = None
+    for gg in mod.GROUPS:
+        if gg.get('name') == rec.get('group'):
+            g = gg
+    if g is None:
+        for gg in mod.GROUPS:
+            if rec.get('group', '').startswith(gg.get('name', '') + '.'):   # lemma groups are expanded per lemma
+                g = dict(gg); g['name'] = rec['group']; g['harness'] = rec['group'].split('.', 1)[1]
+    if g is None:
+        print('group %s no longer exists' % rec.get('group'))
+        return 2
+    scratch = tempfile.mkdtemp(prefix='verif_replay_')
+    try:
+        do_weave(specdir, mod, scratch, stack)
+        wd = os.path.join(scratch, 'replay'); os.makedirs(wd, exist_ok=True)
+        ok, outp, cmd = native_replay(pid, specdir, g, scratch, g.get('stack', stack), rec['tape'], wd)
+        print(outp.strip()[-2000:])
+        print('REPRODUCED' if ok else 'not reproduced on the current tree')
+        return 1 if ok else 0
+    finally:
+        shutil.rmtree(scratch, ignore_errors=True)
 
 
 def undecided_blocks(undecided):
